@@ -18,3 +18,23 @@ package libjson
 //@   ensures  [swaps] m[i] == old(m[j]) && m[j] == old(m[i])
 //@   ensures  [others-unchanged] forall(k, 0, len(m), k == i || k == j || m[k] == old(m[k]))
 //@   property C10 C13
+
+// ---- :exact-integers (C13): a number literal becomes an int exactly when it is
+// WRITTEN as an integer that fits a lisp int; an integer literal that does not
+// fit is refused with json:integer-range-error unless it is the canonical
+// rendering of the float it parses to (what this package itself emits for a
+// large float); it is never rounded silently.
+
+//@ func isJSONInteger
+//@   loop 1 (rangeint_iter) invariant [no-fraction-or-exponent-so-far] 0 <= rangeint_iter && rangeint_iter < strlen(text) && forall(k, 0, rangeint_iter, text[k] != '.' && text[k] != 'e' && text[k] != 'E')
+//@   ensures  [integer-spelling] result == (text != "-0" && forall(k, 0, strlen(text), text[k] != '.' && text[k] != 'e' && text[k] != 'E'))
+//@   modifies nothing
+//@   property C13
+
+//@ func loadNumber
+//@   ensures  [non-integer-spelling-is-a-float-or-error] !ret("isJSONInteger", 0) ==> result != nil && (result.Type == lisp.LFloat || result.Type == lisp.LError)
+//@   ensures  [fitting-integer-is-exact] ret("isJSONInteger", 0) && ext("strconv.ParseInt", 1, text, 10, 64) == nil ==> result != nil && result.Type == lisp.LInt && result.Int == ext("strconv.ParseInt", 0, text, 10, 64)
+//@   ensures  [unfitting-integer-is-never-an-int] ret("isJSONInteger", 0) && ext("strconv.ParseInt", 1, text, 10, 64) != nil ==> result != nil && result.Type != lisp.LInt
+//@   ensures  [unfitting-integer-is-a-range-error-unless-canonical-float] ret("isJSONInteger", 0) && ext("strconv.ParseInt", 1, text, 10, 64) != nil && result.Type != lisp.LFloat ==> result.Type == lisp.LError && result.Str == "json:integer-range-error"
+//@   ensures  [an-unfitting-integer-becomes-a-float-only-when-it-is-its-own-rendering] ret("isJSONInteger", 0) && ext("strconv.ParseInt", 1, text, 10, 64) != nil && result.Type == lisp.LFloat ==> strlen(text) == len(ret("appendJSONFloat", 0))
+//@   property C13
